@@ -216,6 +216,7 @@ GROUPS = {
     "fmt": ("GenFmt.v", "TieFmt.v", ["tie_fields"]),
     "load": ("GenLoad.v", "TieLoad.v", ["tie_read_offline"]),
     "selector": ("GenSelector.v", "TieSelector.v", ["tie_selector"]),
+    "alias": ("GenAlias.v", "TieAlias.v", ["tie_alias_sites", "tie_alias_pairs"]),
     "times": ("GenTimes.v", "TieTimes.v", ["tie_region_start", "tie_region_duration", "tie_region_end", "tie_make_region_args"]),
     "div": ("GenDiv.v", "TieDiv.v", ["tie_div_loop", "tie_div"]),
     "guards": ("GenGuards.v", "TieGuards.v", ["tie_join_guard", "tie_record_flag"]),
@@ -1623,7 +1624,12 @@ def gen_times(repo):
     return "\n".join(out)
 
 
-GENERATORS = {"times": gen_times, "div": gen_div, "guards": gen_guards, "selector": gen_selector, "load": gen_load, "reader": gen_reader, "loops": gen_loops, "savers": gen_savers, "fsrc": gen_fsrc, "algebra": gen_algebra, "split": gen_split, "dur": gen_dur, "region": gen_region, "silence": gen_silence, "buf": gen_buf, "fmt": gen_fmt}
+def gen_alias(repo):
+    from . import alias
+    return alias.emit(repo)
+
+
+GENERATORS = {"alias": gen_alias, "times": gen_times, "div": gen_div, "guards": gen_guards, "selector": gen_selector, "load": gen_load, "reader": gen_reader, "loops": gen_loops, "savers": gen_savers, "fsrc": gen_fsrc, "algebra": gen_algebra, "split": gen_split, "dur": gen_dur, "region": gen_region, "silence": gen_silence, "buf": gen_buf, "fmt": gen_fmt}
 
 
 def emit_group(repo, group):
